@@ -10,10 +10,11 @@ Fuel decreases at every call; running out of fuel is the explicit third answer `
 silent "no match".  Iterations of a quantifier beyond its minimum must consume input (an empty
 optional iteration adds nothing to the language), which bounds the search.
 
-NOT PROVED: `searchB r s = .yes ↔ ∃ a b c, s = a ++ b ++ c ∧ MUnion r a b c` (for sufficient fuel).
-The matcher is validated against Python's `re.search` by the C11/C12 correspondence (every
-`pattern` verdict of the `jsonschema` library on SDK documents and their mutants), not verified;
-theorems that mention patterns are statements about `searchB`.
+PROVED (`Lemmas/JsonSchemaSearchB.lean`, `Props.C11.searchB_is_semantics`): for every tree and text
+`searchB r s = .yes ↔ ∃ a b c, s = a ++ b ++ c ∧ MUnion r a b c`, `searchB r s = .no` iff there is no
+such match, and `searchB r s ≠ .out` (the fuel `fuelFor` is sufficient).  The C11/C12 correspondence
+compares the matcher with Python's `re.search` (every `pattern` verdict of the `jsonschema` library on
+SDK documents and their mutants, and the `pat` stream), which ties the SEMANTICS to CPython.
 -/
 namespace AasVerif.JsonSchema
 open AasVerif AasVerif.Retree
